@@ -403,6 +403,8 @@ def check(ctx):
     if P.has_cls('PartProcessor'):
         from .c13 import restore_flow
         restore_flow(ctx, o)
+    obs.append(ctx.shared('c10', 'C10.4', 'C03.13', 'a processor that waits for resources is woken by the callback it registered; that needs a registered request to stay in the '
+                          'waiting list until it is served (withdrawn or reordered requests leave a waiting device asleep)'))
     return obs
 
 
